@@ -546,14 +546,33 @@ def rewrite_iter_adapters(code, stats):
       R9e  E.iter().filter(|x| C).count()               ->  counting index loop
     Assumed std contract: the adapters visit the elements once, in order."""
     flat = lambda e: re.sub(r"\s+", "", e)
+    # R9f/R9g: explicit `for` loops over the same collections are brought to the same normal form,
+    # so that a unit's loop contracts do not depend on which of the two spellings the code uses
+    for _ in range(10):
+        m = re.search(r"\bfor\s+(\w+)\s+in\s+((?:[\w.]|\(\))+?)\.iter_mut\(\)\s*\{", code)
+        if m:
+            ob = m.end() - 1
+            cb = match_close(code, ob)
+            var, recv, body = m.group(1), flat(m.group(2)), code[ob + 1:cb]
+            new = ("{ let mut i_ = 0usize; while /*R9:E=%s;X=%s*/ i_ < %s.len() { let %s = &mut %s[i_]; { %s } i_ += 1; } }"
+                   % (recv, var, recv, var, recv, body.strip()))
+            code = code[:m.start()] + new + code[cb + 1:]
+            stats["R9"] = stats.get("R9", 0) + 1
+            continue
+        m = re.search(r"\bfor\s+(\w+)\s+in\s+(?!it_\s*:)((?:[\w.]|\(\))+?)(\.into_iter\(\))?\s*\{", code)
+        if m and not re.search(r"\.(iter|drain|keys|values|chars|bytes|lines|enumerate|rev|zip)\(", m.group(2)) and not re.match(r"^\d", m.group(2)) and ".." not in m.group(2):
+            code = code[:m.start()] + "for /*R9:E=%s;X=%s*/ %s in it_: %s {" % (flat(m.group(2)), m.group(1), m.group(1), flat(m.group(2))) + code[m.end():]
+            stats["R9"] = stats.get("R9", 0) + 1
+            continue
+        break
     for _ in range(20):
         m = re.search(r"\.\s*iter_mut\(\)\s*\.\s*for_each\s*\(\s*(?=\|)", code)
         if m:
             rs = _receiver_start(code, m.start())
             recv = flat(code[rs:m.start()])
             var, body, cl = _closure_at(code, m.end())
-            new = ("{ let mut i_ = 0usize; while i_ < %s.len() { let %s = &mut %s[i_]; { %s } i_ += 1; } }"
-                   % (recv, var, recv, body))
+            new = ("{ let mut i_ = 0usize; while /*R9:E=%s;X=%s*/ i_ < %s.len() { let %s = &mut %s[i_]; { %s } i_ += 1; } }"
+                   % (recv, var, recv, var, recv, body))
             end = cl + 1
             code = code[:rs] + new + code[end:]
             stats["R9"] = stats.get("R9", 0) + 1
@@ -567,7 +586,7 @@ def rewrite_iter_adapters(code, stats):
             if not m2:
                 raise ExtractError("R9b: into_iter().filter(..) not followed by for_each")
             var, body, cl = _closure_at(code, m2.end())
-            new = ("for %s in it_: %s { if { let %s = &%s; %s } { %s } }" % (var, recv, fvar, var, fbody, body))
+            new = ("for /*R9:E=%s;X=%s*/ %s in it_: %s { if { let %s = &%s; %s } { %s } }" % (recv, var, var, recv, fvar, var, fbody, body))
             code = code[:rs] + new + code[cl + 1:]
             stats["R9"] = stats.get("R9", 0) + 1
             continue
@@ -576,7 +595,7 @@ def rewrite_iter_adapters(code, stats):
             rs = _receiver_start(code, m.start())
             recv = flat(code[rs:m.start()])
             var, body, cl = _closure_at(code, m.end())
-            new = "for %s in it_: %s { %s }" % (var, recv, body)
+            new = "for /*R9:E=%s;X=%s*/ %s in it_: %s { %s }" % (recv, var, var, recv, body)
             code = code[:rs] + new + code[cl + 1:]
             stats["R9"] = stats.get("R9", 0) + 1
             continue
@@ -585,8 +604,8 @@ def rewrite_iter_adapters(code, stats):
             rs = _receiver_start(code, m.start())
             recv = flat(code[rs:m.start()])
             var, body, cl = _closure_at(code, m.end())
-            new = ("{ let mut i_ = 0usize; while i_ < %s.len() { let keep_ = { let %s = &%s[i_]; %s }; "
-                   "if keep_ { i_ += 1; } else { %s.remove(i_); } } }" % (recv, var, recv, body, recv))
+            new = ("{ let mut i_ = 0usize; while /*R9:E=%s;X=%s*/ i_ < %s.len() { let keep_ = { let %s = &%s[i_]; %s }; "
+                   "if keep_ { i_ += 1; } else { %s.remove(i_); } } }" % (recv, var, recv, var, recv, body, recv))
             code = code[:rs] + new + code[cl + 1:]
             stats["R9"] = stats.get("R9", 0) + 1
             continue
@@ -598,8 +617,8 @@ def rewrite_iter_adapters(code, stats):
             m2 = re.compile(r"\s*\.\s*count\s*\(\s*\)").match(code, cl + 1)
             if not m2:
                 raise ExtractError("R9e: iter().filter(..) not followed by count()")
-            new = ("({ let mut n_ = 0usize; let mut i_ = 0usize; while i_ < %s.len() { let %s = &%s[i_]; "
-                   "if %s { n_ += 1; } i_ += 1; } n_ })" % (recv, var, recv, body))
+            new = ("({ let mut n_ = 0usize; let mut i_ = 0usize; while /*R9:E=%s;X=%s*/ i_ < %s.len() { let %s = &%s[i_]; "
+                   "if %s { n_ += 1; } i_ += 1; } n_ })" % (recv, var, recv, var, recv, body))
             code = code[:rs] + new + code[m2.end():]
             stats["R9"] = stats.get("R9", 0) + 1
             continue
@@ -609,8 +628,8 @@ def rewrite_iter_adapters(code, stats):
             recv = flat(code[rs:m.start()])
             var, body, cl = _closure_at(code, m.end())
             body = rewrite_map_or(body, stats)
-            new = ("({ let mut all_ = true; let mut i_ = 0usize; while all_ && i_ < %s.len() { let %s = &%s[i_]; "
-                   "if !(%s) { all_ = false; } i_ += 1; } all_ })" % (recv, var, recv, body))
+            new = ("({ let mut all_ = true; let mut i_ = 0usize; while /*R9:E=%s;X=%s*/ all_ && i_ < %s.len() { let %s = &%s[i_]; "
+                   "if !(%s) { all_ = false; } i_ += 1; } all_ })" % (recv, var, recv, var, recv, body))
             code = code[:rs] + new + code[cl + 1:]
             stats["R9"] = stats.get("R9", 0) + 1
             continue
@@ -1009,7 +1028,13 @@ def process_fn(fn, spec, handle, stats, canary):
                 elif ch == "{" and pd == 0:
                     break
                 j += 1
-            body = body[:j] + "\n" + "\n".join(inv) + "\n" + body[j:]
+            mk = re.search(r"/\*R9:E=(.*?);X=(.*?)\*/", body[m.start():j])
+            inv2 = inv
+            if mk:
+                # loop contracts may name the iterated collection / the element variable of a loop
+                # produced by rule R9 as $E / $X, so that they survive a renaming of locals
+                inv2 = [l_.replace("$E", mk.group(1)).replace("$X", mk.group(2)) for l_ in inv]
+            body = body[:j] + "\n" + "\n".join(inv2) + "\n" + body[j:]
     clauses = list(spec.fn.get(name, []))
     if canary and (clauses or name in spec.fn) and name not in spec.trusted and name not in spec.canary_skip:
         # vacuity canary: the entry of every contracted function must be reachable, i.e. its
